@@ -595,3 +595,84 @@ pub static GLOBAL_EXECUTIONS: AtomicU64 = AtomicU64::new(0);
 pub fn frame_widths() -> Vec<u32> {
     CORE.with(|c| c.borrow().stack.iter().map(|f| f.n).collect())
 }
+
+// ------------------------------------------------------------------------------------------------
+// batch mode: run `n` independent executions under the default schedule (no branching), used by
+// the `seq` and `exh` engines; failures are caught per item.
+// ------------------------------------------------------------------------------------------------
+thread_local! {
+    static BATCH_NEXT: std::cell::Cell<usize> = std::cell::Cell::new(0);
+    static BATCH_END: std::cell::Cell<usize> = std::cell::Cell::new(0);
+}
+
+pub struct BatchSched;
+impl Scheduler for BatchSched {
+    fn new_execution(&mut self) -> Option<Schedule> {
+        clear_monitor();
+        let go = BATCH_NEXT.with(|n| n.get()) < BATCH_END.with(|e| e.get());
+        if go {
+            CORE.with(|c| {
+                let mut c = c.borrow_mut();
+                c.branching = false;
+                c.frozen.clear();
+                c.starved = false;
+                c.tick = 0;
+                c.step = 0;
+                c.stack.clear();
+                c.replay = None;
+                c.probe = false;
+            });
+            Some(Schedule::new(0))
+        } else {
+            None
+        }
+    }
+    fn next_task(&mut self, runnable: &[&Task], current: Option<TaskId>, is_yielding: bool) -> Option<TaskId> {
+        Pb.next_task(runnable, current, is_yielding)
+    }
+    fn next_u64(&mut self) -> u64 {
+        0
+    }
+}
+
+/// Runs `body(i)` for every `i` in `range`, each in its own execution. Returns the failures
+/// (item index, kind, message) of executions that did not complete.
+pub fn run_batch(range: std::ops::Range<usize>, body: Arc<dyn Fn(usize) + Send + Sync>) -> Vec<(usize, &'static str, String)> {
+    install_quiet_panic_hook();
+    CORE.with(|c| *c.borrow_mut() = Core::default());
+    BATCH_NEXT.with(|n| n.set(range.start));
+    BATCH_END.with(|e| e.set(range.end));
+    let mut failures = Vec::new();
+    loop {
+        if BATCH_NEXT.with(|n| n.get()) >= BATCH_END.with(|e| e.get()) {
+            break;
+        }
+        let b = body.clone();
+        LAST_PANIC.with(|p| *p.borrow_mut() = None);
+        let r = std::panic::catch_unwind(std::panic::AssertUnwindSafe(|| {
+            shuttle::Runner::new(BatchSched, shuttle_config()).run(move || {
+                let i = BATCH_NEXT.with(|n| {
+                    let i = n.get();
+                    n.set(i + 1);
+                    i
+                });
+                b(i);
+            });
+        }));
+        if let Err(e) = r {
+            let msg = e
+                .downcast_ref::<String>()
+                .cloned()
+                .or_else(|| e.downcast_ref::<&str>().map(|s| s.to_string()))
+                .unwrap_or_else(|| "?".into());
+            let first = msg.lines().next().unwrap_or("").to_string();
+            let kind = if first.starts_with("deadlock!") { "deadlock" } else { "panic" };
+            let detail = if kind == "panic" { LAST_PANIC.with(|p| p.borrow().clone()).unwrap_or(first.clone()) } else { first };
+            super::world::abandon();
+            clear_monitor();
+            let i = BATCH_NEXT.with(|n| n.get()).saturating_sub(1);
+            failures.push((i, kind, detail));
+        }
+    }
+    failures
+}
